@@ -133,6 +133,7 @@ class Attr(object):
             t = {'int': 'int', 'str': 'str', 'float': 'float', 'bool': 'bool', 'date': 'date', 'dec': 'Decimal'}[self.typ]
             args = [t]
             if self.typ == 'dec': args += ['12', '2']
+            if self.kind == 'pk' and self.typ == 'int': args.append('auto=True')
             if self.typ == 'str':
                 args.append('autostrip=False')
                 if self.opts.get('nullable'): args.append('nullable=True')
@@ -571,6 +572,7 @@ def render_program(p):
             if len(step) > 2 and step[2] is not None: kw.append('distinct=%r' % step[2])
             add('    q = q.group_concat(%s)' % ', '.join(kw))
         elif op == 'random': add('    q = q.random(%d)' % step[1])
+        elif op == 'new_param': add('    # the parameter t is a NEW %s object created in this session (%s); %s rows referencing it are created too' % (step[1], step[2], 'new'))
         elif op == 'fetch': add('    q = q.fetch(%s)' % ', '.join(repr(x) for x in step[1:]))
         elif op == 'access':
             # a script of accesses on the RESULT OBJECT (QueryResult), in order, each observed value recorded
@@ -736,6 +738,10 @@ class Interp(object):
         if any(isinstance(v, BoolTyped) and int(v) not in (0, 1) for v in items): self.sites.add('bool_arith_bool')
         bt = lambda v: (bool(v) if 'bool_arith_bool' in self.dev else int(v)) if isinstance(v, BoolTyped) else v
         return tuple(bt(v) for v in val) if isinstance(val, tuple) else bt(val)
+
+    def row_flag_pending(self, node):
+        """None produced by a python-raising step (attribute of a None reference, x/0 ...) is not a plain missing value."""
+        return self.row_flag
 
     def pyraise(self, why=''):
         if self.strict: raise PyWouldRaise(why)
@@ -1060,7 +1066,12 @@ class Interp(object):
                 if isinstance(o, ast.Compare) and len(o.ops) == 1 and isinstance(o.ops[0], ast.In):
                     # pony turns not (x in S) into x NOT IN S (same rendering as the `not in` operator)
                     return self.compare(ast.NotIn(), self.ev(o.left, env), self.ev(o.comparators[0], env), o.left, o.comparators[0], env)
-                return self.t_not(self.truth(self.ev(node.operand, env)))
+                v = self.ev(node.operand, env)
+                if v is None and not self.row_flag_pending(node.operand):
+                    # a missing VALUE (attribute, method result, coalesce, conditional ...) is falsy, so its negation is true:
+                    # pony renders `x = '' OR x IS NULL` / COALESCE(x, '') = '' / x IS NULL for every directly negated value
+                    return True
+                return self.t_not(self.truth(v))
             finally: self.strict = saved
         v = self.ev(node.operand, env)
         if v is None: return self.nullprop()
@@ -2557,6 +2568,7 @@ TEMPLATES += [
     T('and', 'bool', ('cond', 'cond'), '{0} and {1}'), T('or', 'bool', ('cond', 'cond'), '{0} or {1}'),
     T('and3', 'bool', ('cond', 'cond', 'cond'), '{0} and {1} and {2}'), T('or3', 'bool', ('cond', 'cond', 'cond'), '{0} or {1} or {2}'),
     T('not', 'bool', ('cond',), 'not {0}'),
+    T('not.str', 'bool', ('str',), 'not {0}'), T('not.int', 'bool', ('int',), 'not {0}'), T('not.float', 'bool', ('float',), 'not {0}', 'float'),
 ]
 TEMPLATES_BY_RTYPE = {}
 for _t in TEMPLATES: TEMPLATES_BY_RTYPE.setdefault(_t['rtype'], []).append(_t)
@@ -2690,6 +2702,11 @@ class ProgramGen(object):
         if typ == 'num': typ = rng.choice(['int', 'int', 'float'] if 'float' not in self.exclude else ['int'])
         if typ == 'cond':
             if d <= 0 or rng.random() < 0.15: return self.bool_leaf()
+            if rng.random() < 0.08:
+                vt = rng.choice([t for t in ('str', 'str', 'int', 'float') if t not in self.exclude])
+                self.use('truth.expr.' + vt)
+                x = self.gen(vt, d - 1)               # truth test of a computed value (method call, coalesce, arithmetic ...)
+                return X(P(x), True)
             typ = 'bool'
         if d <= 0 or rng.random() < 0.22: return self.leaf(typ)
         # special (non-template) productions
@@ -3164,7 +3181,7 @@ class ProgramGen(object):
     REDUCED_OPS = frozenset("""int.add int.sub int.mul int.floordiv int.mod int.neg int.abs int.len int.coalesce int.year
         float.div float.mul float.pow str.cat str.upper str.strip str.index str.slice str.concat2 str.coalesce date.addc
         dec.addi cmp.int.lt cmp.int.eq cmp.str.le cmp.str.ne cmp.date.gt cmp.dec.ge cmp.num.lt isnone notnone in.intlist
-        notin.intlist str.in startswith endswith between.int and or not cmp.chain.int cmp.bool.eq""".split())
+        notin.intlist str.in startswith endswith between.int and or not not.str not.int cmp.chain.int cmp.bool.eq""".split())
 
     def enumerate_small(self, ename='Person', var='p', per_type=2, max_ops=2, exclude_ops=(), ops=None):
         """All expressions with <= max_ops template operators over the reduced leaf set, wrapped into programs:
